@@ -53,7 +53,7 @@ fn k_accessors_react() {
 // ---------------------------------------------------------------------------------------------------------------
 // K.accessors.reactive_mut: ReactiveMut<T> (query-level accessors) on an entity with / without React<T> (C14, C18).
 // ---------------------------------------------------------------------------------------------------------------
-//# id=K.accessors.reactive_mut props=C14,C18 strength=complete shape="loop-free; entity has React<T> / has none (symbolic); old/new symbolic over u32" tier=quick fns=ReactiveMut::get,ReactiveMut::get_mut,ReactiveMut::get_noreact,ReactiveMut::set_if_neq,Reactive::get
+//# id=K.accessors.reactive_mut props=C14,C18 strength=complete shape="loop-free; entity has React<T> / has none (symbolic); old/new symbolic over u32" tier=off fns=ReactiveMut::get,ReactiveMut::get_mut,ReactiveMut::get_noreact,ReactiveMut::set_if_neq,Reactive::get
 #[kani::proof] #[kani::unwind(10)]
 fn k_accessors_reactive_mut() {
     let mut world = World::new();
